@@ -136,6 +136,11 @@ H("streams_set_receive_window", ["C06"], "quick", "connection::streams::state::s
 H("streams_queue_max_stream_id", ["C06"], "quick", "connection::streams::state::queue_max_stream_id",
   [("max_remote_bi", "u64"), ("sent_bi", "u64"), ("conc_bi", "u64"), ("max_remote_uni", "u64"), ("sent_uni", "u64"), ("conc_uni", "u64")], 6,
   ["reached", "bidi queued", "uni queued"], ["StreamsState::queue_max_stream_id"], "sent <= max_remote, all u64")
+H("streams_zero_rtt_rejected_restart", ["C05"], "quick", "connection::streams::state::zero_rtt_rejected_restart",
+  [("remembered_max_data", "u64"), ("early_sent", "u64"), ("early_unacked", "u64"), ("old_bi", "u64"), ("old_uni", "u64"), ("new_max_data", "u64"), ("new_bi", "u64"), ("new_uni", "u64")], 4,
+  ["fresh limit lower than the remembered one", "fresh limit not lower"],
+  ["StreamsState::zero_rtt_rejected", "StreamsState::set_params", "StreamsState::received_max_data"],
+  "every remembered and fresh connection / stream-count limit < 2^62, every amount of early data sent and unacknowledged; no stream open (empty hash maps: the per-stream loops run zero times)")
 H("streams_max_send_data", ["C05"], "quick", "connection::streams::state::max_send_data",
   [("server", "bool"), ("raw_id", "u64"), ("uni", "u64"), ("bidi_local", "u64"), ("bidi_remote", "u64")], 6,
   ["reached"], ["StreamsState::max_send_data", "StreamsState::is_local_unopened"], "every id/limit < 2^62")
